@@ -56,8 +56,8 @@ def child_main(kind, seconds):
                 Scenario(kind="threads", name="st2x21", progs=[[1, 2], [3]], nest={1: [7]}, nest_at={1: "on"}, yields={}, gran="engine")]
         bound = 2
     else:
-        scns = [Scenario(kind="asyncio", name="sa2", progs=[[1, 2], [3]], nest={}, nest_at={}, yields={"on": 1, "after": 1}, split=[3])]
-        bound = 99
+        scns = [Scenario(kind="asyncio", name="sa2", progs=[[1, 2], [3]], nest={}, nest_at={}, yields={"on": 1, "after": 1}, split=[3], gaps=[0, 1])]
+        bound = 2
     pool = make_pool(3)
     runs, first = 0, None
     t0 = time.time()
